@@ -95,6 +95,15 @@ C09_Inbound ==
 C09_InboundNoStale ==
   (IsRecv /\ MustReject(ev.route, ctx.peer, ctx.local)) => SeqToSet(ev.obs.rib) \subseteq {Tag(ev.route)}
 
+(* NOT in any cfg (see the comment at Export!MayAdvertise): the stricter reading that also counts
+   AS_CONFED_* segments when the peer is a member of the confederation.  gobgp's isASLoop looks at
+   AS_SEQUENCE / AS_SET only, so a route whose AS_CONFED_SEQUENCE already holds the peer's member-AS
+   is sent back into that member-AS (observed: target C1 AS 65010, stored [CSEQ 65011 65010] ->
+   sent [CSEQ 65000 65011 65010]); the receiver's own-AS check drops it. *)
+Info_ConfedLoopStrict ==
+  (IsExport /\ ev.obs.adv = "yes" /\ ctx.peer.kind = "confed") =>
+    ctx.peer.as \notin ASSet(RepPeer(ev.route.aspath, ctx.peer, SessionAS(ctx.peer, ctx.local)))
+
 (* KNOWN FINDING KF-C09-cluster-loop-used: peer.handleUpdate does not look at CLUSTER_LIST; the
    route is installed and used (only BgpServer.filterpath refrains from reflecting it to
    clients).  Tolerated: the ONLY reason to reject the route is the cluster-id. *)
